@@ -34,6 +34,7 @@ func execSmp(a []Tok) string {
 			}
 			heap[id] = ns
 		case "sort":
+			allowMutation() // documented: sorts in place
 			if r := s.Sort(); r != s {
 				panic("Sort did not return its receiver")
 			}
